@@ -396,6 +396,10 @@ struct NumHarness : vh::Harness {
     // 15..31 significant digits and 1..19 integer digits of the 600 largest doubles, plain and range-checked: 375 416 calls,
     // no infinity, no ERANGE), so a double that does is a NEW violation, not this finding
     else if (sizeof(T) == 4 && near_max && ref <= Lim<T>::mx) cls = "near-max-overflow";
+    // how tight is each open class?  inputs that fall into its region vs. inputs of the region that actually fail
+    // (the second number is the known_findings_hit count of the run): both go to the evidence
+    // (only inputs on which a value clause of the property applies: in range)
+    if (cls != "none" && extra && (in_limits || well_inside)) ++(*extra)["open_class_region_inputs:" + cls];
 
     if (sto) {
       // exception table
